@@ -1,6 +1,7 @@
 import RSocketModel.Props.C14
 import RSocketModel.Gen.LeaseFn
 import RSocketModel.Gen.LeaseDrainFn
+import RSocketModel.Gen.LeaseGateFn
 /-!
 # C14 — the lease test is the source's `DefinedLease._is_request_allowed`
 
@@ -84,5 +85,25 @@ theorem c14_drain_matches_source (now : Nat) (q : List Nat) :
           subst hok
           rfl
         simp [hdr]
+
+/-- **the gate of `send_request` is the model's**: on a socket that honours leases a
+request-initiating frame is handed to the sender exactly when `allow` says so, and the lease's
+counter moves as in the model (`send_request` / `_is_frame_allowed_to_send` compiled from the source) -/
+theorem c14_gate_matches_source (l : LeaseSt) (now : Nat) :
+    Gen.send_request true true l.created l.ttl now l.used l.max = ((allow l now).1, (allow l now).2.used) := by
+  have h := c14_allow_matches_source l now
+  simp only [Gen.send_request, Gen.is_frame_allowed_to_send, if_true, h]
+  cases (allow l now).1 <;> rfl
+
+/-- a socket that does not honour leases never holds a frame back and never consults (so never
+counts on) the lease — the guard a seeded change once dropped -/
+theorem c14_source_no_lease_no_gate (isInitiate : Bool) (created ttl now counter max : Nat) :
+    Gen.send_request false isInitiate created ttl now counter max = (true, counter) := by
+  simp [Gen.send_request]
+
+/-- frames that do not open a stream are never held and never counted, lease or not -/
+theorem c14_source_only_requests_are_gated (honor : Bool) (created ttl now counter max : Nat) :
+    Gen.send_request honor false created ttl now counter max = (true, counter) := by
+  cases honor <;> simp [Gen.send_request, Gen.is_frame_allowed_to_send]
 
 end RSocketModel.Lease
